@@ -239,6 +239,7 @@ func (s *Server) Run(addr string, opt ...Option) error {
 			}
 			continue
 		}
+		verifGate("run.registered", connID)
 		s.logger.Debug("new connection accepted", "op", op, "conn", connID)
 		conn, err := newConn(s.shutdownCtx, connID, c, s.logger, s.router)
 		if err != nil {
